@@ -174,6 +174,16 @@ CHECKS["C17"] = dict(category="exploration",
            "GenBank text, per-region GenBank, results JSON. Any digest disagreement is a violation with the differing path reported.",
       note="A sample of hash seeds and allocation patterns, not all 2^32; only agreement between runs is asserted, never which order is right.",
       design="3/C17")
+CHECKS["C10"] = dict(category="exploration",
+      technique="Hypothesis annotated-record generator (every feature class, linear/circular, origin-spanning features) with GenBank and JSON round trips, second-write fixed point and accessor-level structural comparison against the original and against the input spec",
+      text="Generated records carrying genes (gene functions, sec_met, NRPS_PKS, codon_start, partial ends), PFAM/aS domains, motifs, prepeptides, "
+           "modules, (sideloaded) protoclusters and subregions, candidates of every kind and regions are written to GenBank text and to the "
+           "results JSON (record_to_json, AntismashResults.write_to_file/from_file incl. bz2 and schema refusal) and read back; sequence, topology, "
+           "multiset of emitted features, area numbering and cross references, gene functions, domain attributes and secmet locations must be "
+           "equal, the second write must be identical to the first, and the first write is judged against the input spec.",
+      note="Three open known findings: equal-coordinate areas/genes swap numbers on reload (pinned by TestRegionManipulation.test_creation_overlapping), "
+           "ambiguous gene-function text, prepeptide location rebuilt from its sections. Module results in the JSON are C11's.",
+      design="3/C10")
 NOT_YET = {}
 
 def main():
